@@ -2,6 +2,7 @@
 """seed_again.py <name> "<note: what was strengthened>" [<PID> <tier>]... - re-run checks against a kept seeded change that was missed at first.
 Applies seeded/<name>/patch.diff to /repo, runs the checks (default: the property's quick tier), undoes it, records the result in meta.json."""
 import json, os, subprocess, sys, time
+os.environ['VERIF_EVIDENCE'] = 'build/seed_evidence'
 ROOT = os.path.dirname(os.path.dirname(os.path.abspath(__file__)))
 name, note = sys.argv[1], sys.argv[2]
 rest = sys.argv[3:]
